@@ -48,7 +48,7 @@ TABLE = [
     ("DISTRIBUTOR_DAY_IN_NANOSECONDS", LH + "fee_distributor/src/helpers.rs",
      r"pub const DAY_IN_NANOSECONDS: u64 = " + NUM),
     ("LAIR_BONDING_ASSETS_LIMIT", LH + "whale_lair/src/state.rs", r"pub const BONDING_ASSETS_LIMIT: usize = " + NUM),
-    ("LAIR_DAY_IN_SECONDS", LH + "whale_lair/src/helpers.rs", r"pub const DAY_IN_SECONDS: u64 = " + NUM),
+    ("LAIR_DAY_IN_NANOSECONDS", LH + "whale_lair/src/helpers.rs", r"pub const DAY_IN_NANOSECONDS: u64 = " + NUM),
     ("LAIR_MAX_PAGE_LIMIT", LH + "whale_lair/src/queries.rs", r"pub const MAX_PAGE_LIMIT: u8 = " + NUM),
     ("LAIR_DEFAULT_PAGE_LIMIT", LH + "whale_lair/src/queries.rs", r"pub const DEFAULT_PAGE_LIMIT: u8 = " + NUM),
     ("INCENTIVE_MAX_EPOCH_LIMIT", PN + "incentive/src/helpers.rs", r"pub const MAX_EPOCH_LIMIT: u64 = " + NUM),
